@@ -615,6 +615,7 @@ def t11_view_indices(prog):
     later views test the wrong identifier bit."""
     from . import pathsem
     r = Result()
+    by_value_seen = set()
     for imp in prog.facts['impls']:
         if not imp['trait'] or not imp['trait']['path'].endswith('registry::sealed::view::CanonicalViews') or imp['self'].get('k') != 'tuple':
             continue
@@ -630,11 +631,15 @@ def t11_view_indices(prog):
         rets = [p for p in E.paths if p.ended == 'return']
         own = [g for g in f.d['generics'] if g['kind'] == 'type' and g['idx'] >= len(imp['generics'])]
         tail_ty = imp['self']['e'][1]
-        if len(rets) != 1 or E.truncated or len(own) != 1:
-            r.viol('T11', key + '/shape', f.loc(), 'indices must be a single straight-line computation generic over the whole registry')
+        # the whole registry is known either as the method's own type parameter (LEN::<R_>) or as a usize parameter
+        # carrying its length
+        by_value = len(own) == 0 and f.body.argc == 1 and ty_str(f.body.local_ty(1)) == 'usize'
+        if len(rets) != 1 or E.truncated or not (len(own) == 1 or by_value):
+            r.viol('T11', key + '/shape', f.loc(), 'indices must be a single straight-line computation over the whole registry (its type, or its length)')
             continue
         p = rets[0]
-        whole = own[0]
+        whole = own[0] if not by_value else {'name': f.body.local_name(1) or 'registry_len', 'idx': None}
+        wparam = ('p', 1, f.body.local_name(1) or '') if by_value else None
         rec = p.calls(lambda e: e['name'] == 'indices')
         if len(rec) != 1:
             r.viol('T11', key + '/recursion', f.loc(), 'indices must recurse into the tail exactly once (found %d)' % len(rec))
@@ -642,7 +647,11 @@ def t11_view_indices(prog):
         ga = [a for a in rec[0]['f']['args'] if a.get('k') != 'region']
         if not (ga and ty_eq(ga[0], tail_ty)):
             r.viol('T11', key + '/recursion-self', f.loc(rec[0]['ln']), 'the recursion is not on the registry tail')
-        if not (ga and ga[-1].get('k') == 'param' and ga[-1].get('idx') == whole['idx']):
+        if by_value:
+            if not (rec[0]['args'] and pathsem.strip_refs(rec[0]['args'][0]) == wparam):
+                r.viol('T11', key + '/recursion-registry', f.loc(rec[0]['ln']), 'the recursion does not pass the whole registry\'s length on unchanged: the tail\'s indices become relative to the wrong registry')
+            by_value_seen.add(f.d.get('trait_item') or f.name)
+        elif not (ga and ga[-1].get('k') == 'param' and ga[-1].get('idx') == whole['idx']):
             r.viol('T11', key + '/recursion-registry', f.loc(rec[0]['ln']),
                    'the recursion passes %s as the whole registry instead of this call\'s own %s: the tail\'s indices become relative to the wrong registry' % (ty_str(ga[-1]) if ga else '?', whole['name']))
         v = p.ret
@@ -652,6 +661,8 @@ def t11_view_indices(prog):
                 continue
             for (lw, lt) in ((1, 0), (5, 0), (9, 3), (17, 16), (40, 7)):
                 def leaf(t, lw=lw, lt=lt):
+                    if by_value and t == wparam:
+                        return lw
                     if t[0] == 'k' and isinstance(t[1], str) and '::LEN<' in t[1]:
                         inner = t[1][t[1].index('::LEN<') + 6:-1]
                         if inner == whole['name']:
@@ -666,6 +677,23 @@ def t11_view_indices(prog):
         else:
             if v != rec[0]['ret']:
                 r.viol('T11', key + '/shape', f.loc(), 'a component that is not viewed contributes no index: indices must be the tail\'s indices')
+    if by_value_seen:
+        # the length is a run-time argument now: whoever starts the recursion passes LEN of the registry it starts on
+        for g in prog.fns.values():
+            if g.kind == 'Closure' or (g.impl and g.impl.get('trait') and g.impl['trait']['path'].endswith('registry::sealed::view::CanonicalViews')):
+                continue
+            if not any(True for _ in g.body.calls(lambda c: c['name'] == 'indices' and c['path'].endswith('registry::sealed::view::CanonicalViews::indices'))):
+                continue
+            r.inst('%s starts CanonicalViews::indices' % g.path[:70])
+            Eg = pathsem.analyse(prog, g)
+            for p in Eg.paths:
+                for e in p.calls(lambda e: e['name'] == 'indices' and e['path'].endswith('registry::sealed::view::CanonicalViews::indices')):
+                    ga = [a for a in e['f']['args'] if a.get('k') != 'region']
+                    a0 = pathsem.strip_refs(e['args'][0]) if e['args'] else None
+                    ok = isinstance(a0, tuple) and a0[0] == 'k' and isinstance(a0[1], str) and '::LEN<' in a0[1] and ga and a0[1][a0[1].index('::LEN<') + 6:-1] == ty_str(ga[0])
+                    if not ok:
+                        r.viol('T11', '%s/whole-registry-length' % g.path[:80], g.loc(e['ln']), 'indices is started with %s, not the LEN of the registry it is started on' % pathsem.tstr(a0)[:60])
+                        break
     return r
 
 
